@@ -9,12 +9,18 @@
 #include <cstddef>
 #include <cstdint>
 #include <memory>
+#include <stdexcept>
 #include <string>
 #include <utility>
 #include <vector>
 
 namespace va
 {
+    // a property violation observed inside the adapter (two ways of doing the same thing disagree)
+    struct HarnessObservation : std::runtime_error
+    {
+        using std::runtime_error::runtime_error;
+    };
     enum : uint8_t
     {
         ST_CORE = 0,
@@ -112,6 +118,8 @@ namespace va
         virtual std::vector<double> nb_distances(size_t i) const = 0;
         virtual std::vector<Nb> nbs(size_t i) = 0;
         virtual std::vector<Nb> nbs_inplace(size_t i) = 0;
+        // neighbors(nb[k].idx, nb) after nb = neighbors(i): the index aliases the output vector
+        virtual std::vector<Nb> nbs_walk(size_t i, size_t k) = 0;
         // raster only (others: throw std::logic_error)
         virtual std::vector<std::pair<size_t, size_t>> nb_indices_rc(size_t r, size_t c, bool inplace)
             = 0;
@@ -200,6 +208,7 @@ namespace va
             = 0;
         virtual size_t n_corr() = 0;
         virtual void set_slope_exp(double n) = 0;
+        virtual void set_k_array_bad_shape() = 0;  // must throw
         virtual void set_area_exp(double m) = 0;
         virtual void set_k_scalar(double k) = 0;
         virtual void set_k_array(const std::vector<double>& k) = 0;
@@ -215,6 +224,7 @@ namespace va
         virtual std::vector<double> erode(const std::vector<double>& z, double dt) = 0;
         // next step on the array (reference) that the previous erode() call returned
         virtual std::vector<double> erode_last(double dt) = 0;
+        virtual void set_k_array_bad_shape() = 0;  // must throw
         virtual void set_k_scalar(double k) = 0;
         virtual void set_k_array(const std::vector<double>& k) = 0;
         virtual std::vector<double> k_coef() = 0;
